@@ -1,7 +1,7 @@
 (* C05 -- Droop proportionality for solid coalitions.
    Proved: the ONE-SEAT clause ("with one seat, a candidate ranked first by more than half of the ballots always wins")
-   for wigm, wigm-prf and the Scottish rule under Fixed / integer / Guarded(guard 0), as whole-run theorems
-   (C05_one_seat_majority_wins_partial, ..._scotland_partial, ..._wigm_partial).
+   for wigm, wigm-prf, cfer(-batch) and the Scottish rule under Fixed / integer / Guarded(guard 0), as whole-run theorems
+   (C05_one_seat_majority_wins_partial, ..._scotland_partial, ..._wigm_partial, ..._cfer_partial).
    The general coalition statement is not proved (DESIGN C05: the coalition invariant is the largest single proof of the
    plan); it is decided by the exhaustive coalition oracle on every generated election (all subsets S, all k)
    and the final-scope correspondence.  Also machine-checked: the property is FALSE of the faithful model for
@@ -78,6 +78,20 @@ Theorem C05_one_seat_majority_wins_wigm_partial : forall A S (ZL : zlike A S) cf
   forall c, In c (cands s) -> cid c = m -> cst c = Elected.
 Proof. exact (fun A S ZL cfg _ => count_majority_wigm A S ZL cfg). Qed.
 Print Assumptions C05_one_seat_majority_wins_wigm_partial.
+
+(* the same under the CfER rule, with or without sure-loser batches (cfer, cfer-batch): the first election step elects the
+   candidate -- or the round-1 "everybody fits" exit does, when it is the only candidate -- and the rest of the loop body only
+   moves statuses forward (Proofs/MajorityCfer.v) *)
+From Droop Require Import Proofs.MajorityCfer.
+Theorem C05_one_seat_majority_wins_cfer_partial : forall A S (ZL : zlike A S) cfg,
+  exact A = false -> raw ZL (epsilon A) = 1 -> cf_nseats cfg = 1 ->
+  forall pr m fuel s k, wf_profile pr -> cf_nballots cfg = ballot_total pr ->
+  (exists pc, In pc (pr_cands pr) /\ pc_cid pc = m /\ pc_withdrawn pc = false) ->
+  ballot_total pr < 2 * first_prefs pr m ->
+  exec (@crashed A) fuel (count_cmd A cfg RCfer) (init_state A cfg pr) = Some (s, k) -> k <> Abort ->
+  forall c, In c (cands s) -> cid c = m -> cst c = Elected.
+Proof. exact count_majority_cfer. Qed.
+Print Assumptions C05_one_seat_majority_wins_cfer_partial.
 
 (* ... for every ballot file the reader accepts (no equal-rank ballots; [p_eligible] = the candidates that are not withdrawn) *)
 From Droop Require Import Model.Profile Model.EndToEnd Proofs.EndToEndLink.
